@@ -259,10 +259,9 @@ func (f *Formatter) formatIfStatement(stmt *ast.IfStatement) string {
 		if isInlineComment(stmt.Consequence.Trailing) {
 			buf.WriteString(" " + v)
 		} else {
-			// Otherwise, print to the new line
+			// Otherwise, print each comment to the new line like the leading comments of the next keyword
 			buf.WriteString("\n")
-			buf.WriteString(f.indent(stmt.Consequence.Nest-1) + v)
-			buf.WriteString("\n")
+			buf.WriteString(f.formatComment(stmt.Consequence.Trailing, "\n", stmt.Consequence.Nest-1))
 		}
 	}
 
@@ -271,8 +270,14 @@ func (f *Formatter) formatIfStatement(stmt *ast.IfStatement) string {
 		// If leading comments exists or AlwaysNextLineElseIf configuration is enabled,
 		// The keyword should be printed on the next line.
 		if len(a.Leading) > 0 || f.conf.AlwaysNextLineElseIf {
-			buf.WriteString("\n")
+			// (a line comment after the previous block has put the line-feed already)
+			if !bytes.HasSuffix(buf.Bytes(), []byte("\n")) {
+				buf.WriteString("\n")
+			}
 			buf.WriteString(f.formatComment(a.Leading, "\n", a.Nest))
+			buf.WriteString(f.indent(a.Nest))
+		} else if bytes.HasSuffix(buf.Bytes(), []byte("\n")) {
+			// The previous block ends with a line comment so that the keyword starts the new line
 			buf.WriteString(f.indent(a.Nest))
 		} else {
 			// Otherwise, write with whitespace character
@@ -311,10 +316,9 @@ func (f *Formatter) formatIfStatement(stmt *ast.IfStatement) string {
 			if isInlineComment(a.Consequence.Trailing) {
 				buf.WriteString(" " + v)
 			} else {
-				// Otherwise, print to the new line
+				// Otherwise, print each comment to the new line like the leading comments of the next keyword
 				buf.WriteString("\n")
-				buf.WriteString(f.indent(a.Consequence.Nest-1) + v)
-				buf.WriteString("\n")
+				buf.WriteString(f.formatComment(a.Consequence.Trailing, "\n", a.Consequence.Nest-1))
 			}
 		}
 	}
@@ -322,8 +326,13 @@ func (f *Formatter) formatIfStatement(stmt *ast.IfStatement) string {
 	// else
 	if stmt.Alternative != nil {
 		if len(stmt.Alternative.Leading) > 0 || f.conf.AlwaysNextLineElseIf {
-			buf.WriteString("\n")
+			if !bytes.HasSuffix(buf.Bytes(), []byte("\n")) {
+				buf.WriteString("\n")
+			}
 			buf.WriteString(f.formatComment(stmt.Alternative.Leading, "\n", stmt.Alternative.Nest))
+			buf.WriteString(f.indent(stmt.Alternative.Nest))
+		} else if bytes.HasSuffix(buf.Bytes(), []byte("\n")) {
+			// The previous block ends with a line comment so that the keyword starts the new line
 			buf.WriteString(f.indent(stmt.Alternative.Nest))
 		} else {
 			buf.WriteString(" ")
